@@ -1,6 +1,6 @@
 CONSTANTS
   MaxAbsent = 1
-  MaxPresent = 2
+  MaxPresent = 1
 INIT Init
 NEXT Next
 CONSTRAINT Emit
